@@ -691,7 +691,8 @@ fn materialize(root: &Path, sc: &Scenario) {
     }
     for (n, c) in scenario_raw_files(sc.name) {
         use std::os::unix::ffi::OsStringExt;
-        fs::write(root.join(std::ffi::OsString::from_vec(n)), c).unwrap();
+        // a file system that refuses such names skips them, in the reference tree and in the real one alike
+        let _ = fs::write(root.join(std::ffi::OsString::from_vec(n)), c);
     }
     for (l, t) in scenario_links(sc.name) {
         let lp = root.join(l);
